@@ -105,7 +105,7 @@ class SLock:
         self.release()
 
 
-def run_schedule(tid, nthreads, k, picker, rng, broken_lock=False, client_name="tcp"):
+def run_schedule(tid, nthreads, k, picker, rng, broken_lock=False, client_name="tcp", units_differ=False):
     clock = C.VClock()
     line = C.Line(clock, "tcp")
     sched = Sched(picker)
@@ -137,7 +137,7 @@ def run_schedule(tid, nthreads, k, picker, rng, broken_lock=False, client_name="
     try:
         with C.Patches(clock, line):
             kind, client, dec = C.make_client(client_name, {"retries": 0, "roe": 0, "roi": 0}, timeout=1)
-            TX.RLock = saved
+            # (the scheduler-aware lock stays installed for the whole run: locks created lazily are replaced too)
 
             def worker(t):
                 sched.go[t].acquire()
@@ -148,7 +148,7 @@ def run_schedule(tid, nthreads, k, picker, rng, broken_lock=False, client_name="
                         want = 100 * t + j
                         res = {"th": t, "want": want, "gotv": -1, "kind": "none"}
                         try:
-                            r = client.execute(ReadHoldingRegistersRequest(want, 1 + t, unit=1))
+                            r = client.execute(ReadHoldingRegistersRequest(want, 1 + t, unit=t if units_differ else 1))
                             if r is not None and not isinstance(r, Exception) and hasattr(r, "registers"):
                                 res["kind"] = "reply"
                                 res["gotv"] = int(r.registers[0]) if r.registers else -2
@@ -218,8 +218,8 @@ def run(prop, tier):
     k = 0
     shapes = [(2, 2), (3, 2)] if tier == "quick" else [(2, 2), (2, 3), (3, 2), (4, 3)]
     for nt, kk in shapes:
-        for p in pickers(nt, rng, tier):
-            traces.append(run_schedule("t%d" % k, nt, kk, p, rng))
+        for j, p in enumerate(pickers(nt, rng, tier)):
+            traces.append(run_schedule("t%d" % k, nt, kk, p, rng, units_differ=(j % 2 == 1)))   # callers address the same / different units
             k += 1
     verdicts, st = validate_traces("ThreadsTrace", "ThreadsTrace.cfg", traces)
     rep.add_tv(st, len(traces), sum(len(t["ev"]) for t in traces))
